@@ -109,6 +109,9 @@ type Delivery struct {
 	YAMLFault string `json:"yaml_fault,omitempty"`
 	// SortSpelling is the spelling of the sort parameter when delivered by CLI ("true", "TRUE", "1", "T", ...).
 	SortSpelling string `json:"sort_spelling,omitempty"`
+	// DecoyReal: the decoy entries of the YAML lists name real fields (other than the real entries), so that a
+	// command-line list that is merged with the file's list instead of replacing it changes the output.
+	DecoyReal bool `json:"decoy_real,omitempty"`
 	// Pad adds blanks around CLI values (TrimSpace must remove them).
 	Pad bool `json:"pad,omitempty"`
 }
@@ -326,7 +329,11 @@ func (p *Program) Channels() (params [][2]string, doc *YAMLDoc) {
 		if cli[name] || d.NoYAML {
 			params = append(params, [2]string{name, pad(strings.Join(permute(vals, d.Perm), "+"))})
 			if decoy[name] {
-				doc.set(yamlKey, []string{"Decoy.Entry", "Other.Decoy"})
+				dv := []string{"Decoy.Entry", "Other.Decoy"}
+				if d.DecoyReal {
+					dv = map[string][]string{"exclude_fields": {"Beta.Ratio", "Leaf.Tags"}, "computed_fields": {"Alpha.Id"}, "required_fields": {"Beta.Id"}, "sensitive": {"Beta.Id", "Alpha.Id"}}[name]
+				}
+				doc.set(yamlKey, dv)
 			}
 			return
 		}
